@@ -5,10 +5,12 @@ package arvados
 import (
 	"encoding/hex"
 	"fmt"
+	"io"
 	"os"
 	"runtime"
 	"sort"
 	"strings"
+	"sync"
 	"testing"
 	"time"
 )
@@ -19,6 +21,7 @@ type cfsCtl struct {
 	t              *testing.T
 	r              *vRand
 	kc             *cfsKeep
+	api            *cfsAPI
 	se             *cfsSess
 	base           int // goroutines when nothing is in flight
 	events         []string
@@ -29,6 +32,41 @@ type cfsCtl struct {
 	dead           bool        // an operation did not return: the history ends
 	releaseBlocked bool        // runOp releases parked writes as soon as the call is seen waiting
 	forceInflight  bool        // the next save starts while writes are in flight (if any)
+}
+
+// cfsAPI is the API client the filesystem saves through: it records every collection update.
+type cfsAPI struct {
+	mtx  sync.Mutex
+	puts []string
+}
+
+func (a *cfsAPI) RequestAndDecode(dst interface{}, method, path string, body io.Reader, params interface{}) error {
+	a.mtx.Lock()
+	defer a.mtx.Unlock()
+	if method == "PUT" {
+		txt := "NOT-SAVED: update without manifest_text"
+		if m, ok := params.(map[string]interface{}); ok {
+			if coll, ok := m["collection"].(map[string]string); ok {
+				if t, ok := coll["manifest_text"]; ok {
+					txt = t
+				}
+			}
+		}
+		a.puts = append(a.puts, txt)
+	}
+	return nil
+}
+
+func (a *cfsAPI) count() int {
+	a.mtx.Lock()
+	defer a.mtx.Unlock()
+	return len(a.puts)
+}
+
+func (a *cfsAPI) since(n int) []string {
+	a.mtx.Lock()
+	defer a.mtx.Unlock()
+	return append([]string{}, a.puts[n:]...)
 }
 
 // cfsDeadCases counts histories that ended in a deadlock; after a few the stage stops generating
@@ -45,7 +83,8 @@ func newCfsCtl(t *testing.T, r *vRand, mb int, gated bool, initTxt string, initB
 		loc := kc.preload(b)
 		c.initTab = append(c.initTab, [2]string{hex.EncodeToString(b), loc})
 	}
-	fs, err := (&Collection{ManifestText: initTxt}).FileSystem(nil, kc)
+	c.api = &cfsAPI{}
+	fs, err := (&Collection{UUID: "zzzzz-4zz18-verifverifverif", ManifestText: initTxt}).FileSystem(c.api, kc)
 	if err != nil {
 		t.Fatalf("load %q: %v", initTxt, err)
 	}
@@ -253,7 +292,20 @@ func (c *cfsCtl) marshal() (string, bool) {
 	c.kc.mtx.Unlock()
 	var txt string
 	var err error
-	c.runOp(func() { txt, err = c.se.fs.MarshalManifest(".") })
+	if c.r.Chance(1, 3) {
+		// save through Sync(): the manifest is whatever the collection record receives; a Sync that
+		// reports success without updating the record has saved nothing
+		c.se.tag("save-via-sync")
+		before := c.api.count()
+		c.runOp(func() { err = c.se.fs.Sync() })
+		if puts := c.api.since(before); len(puts) == 1 {
+			txt = puts[0]
+		} else if err == nil {
+			txt = fmt.Sprintf("NOT-SAVED: Sync returned nil after %d collection updates", len(puts))
+		}
+	} else {
+		c.runOp(func() { txt, err = c.se.fs.MarshalManifest(".") })
+	}
 	c.kc.mtx.Lock()
 	c.kc.syncNow = false
 	c.kc.mtx.Unlock()
